@@ -793,6 +793,10 @@ func (b *BlockWise[C]) processReceivedMessage(w *responsewriter.ResponseWriter[C
 		szx = getSzx(szx, maxSzx)
 		// if there is no more then just forward req to next handler
 		if !more {
+			if blockType == message.Block1 && num > 0 {
+				// the last block of a request body without the preceding blocks
+				return errors.New("missing preceding blocks of the request body")
+			}
 			next(w, r)
 			return nil
 		}
